@@ -41,8 +41,9 @@ func Equal(a, b any) bool { //nolint: gocyclo
 		}
 		return a == b
 	default:
-		// == panics on maps, functions and other uncomparable values
-		if !ra.Type().Comparable() || !rb.Type().Comparable() {
+		// == panics on maps, functions and other uncomparable values, also when one is held in
+		// an interface field of a struct whose type is comparable
+		if !ra.Comparable() || !rb.Comparable() {
 			return reflect.DeepEqual(a, b)
 		}
 		return a == b
